@@ -355,8 +355,9 @@ CHECKS = {
                    "panic, no hang, alloc <= 64*len+1 MiB, and success only if the specification says the mandatory part is complete",
         level_note="panics, hangs and allocation are observed by the harness (recover, watchdog, runtime.MemStats), not by TLC; the "
                    "allocation bound is a chosen constant two orders of magnitude above what a correct decoder needs; the frame "
-                   "extractors are not among the parsers the property names; no coverage-guided fuzzing (native go fuzzing was not "
-                   "wired in)",
+                   "extractors are not among the parsers the property names; thorough tier: 120 s of Go's native coverage-guided "
+                   "fuzzing (harness/fuzz_test.go) serve as an additional input source - its corpus is replayed through the same "
+                   "driver and judged by the same trace specification",
         rule="one event per call (function, input octets -> outcome, bytes allocated); inputs derived from canonical images of all "
              "58 layouts plus unstructured and text-shaped strings for 38 auxiliary parsers; distinct = distinct events",
         assumptions=["runtime.MemStats.TotalAlloc delta as allocation meter", "2 s watchdog = hang",
